@@ -4,6 +4,7 @@ import PromqlVerif.Iter
 import PromqlVerif.Table
 import PromqlVerif.Acc
 import PromqlVerif.Coalesce
+import PromqlVerif.Dist
 open PromqlVerif
 
 structure DState where
@@ -56,7 +57,13 @@ def evalView (s : DState) (view : String) : String :=
         match mkCtx s Quirks.none with
         | some (c, w) => if hasTie c w.grid e || joinTie c true e then "1" else "0"
         | none => "bad-op"
-      | _ => "bad-op"
+      | "siteok" => if siteOk e then "1" else "0"
+      | v =>
+        if v.startsWith "distplan:" then
+          match (v.drop 9).toString.toNat? with
+          | some n => distShape n e
+          | none => "bad-op"
+        else "bad-op"
 
 def showOptPt : Option (Int × Float) → String
   | none => "-"
